@@ -378,6 +378,13 @@ func (g *DocGen) litFor(dt string) *ALit {
 		ns := new(big.Int).Mul(big.NewInt(t.Unix()), big.NewInt(1_000_000_000))
 		ns.Add(ns, big.NewInt(int64(t.Nanosecond())))
 		l := &ALit{DT: dt, Kind: "time", Canon: ns.String(), JSON: t.Format(time.RFC3339Nano)}
+		if r.Chance(12) {
+			// the same instant written with an unusual but legal offset
+			off := []int{-1, 1, -1439, 1439, 840, -720, 59, -61}[r.Intn(8)]
+			if tz := t.In(time.FixedZone("", off*60)); tz.Year() >= 1 && tz.Year() <= 9999 {
+				l.JSON = tz.Format(time.RFC3339Nano)
+			}
+		}
 		for _, off := range []int{330, -480, 60} {
 			tz := t.In(time.FixedZone("", off*60))
 			if tz.Year() >= 0 && tz.Year() <= 9999 {
@@ -676,6 +683,35 @@ func (g *DocGen) renderNode(n *ANode, p *Presentation) OObj {
 }
 
 // Render gives one JSON-LD presentation of the abstract document.
+// RenderBroken renders the document with one typed literal (integer, boolean or dateTime) replaced by an ill-formed
+// value: a document that fails inside the entry loop, after other entries may have been produced. nil when there is none.
+func (g *DocGen) RenderBroken(root *ANode, p *Presentation) []byte {
+	var lits []*ALit
+	var walk func(n *ANode)
+	walk = func(n *ANode) {
+		for _, f := range n.Fields {
+			for i := range f.Vals {
+				if l := f.Vals[i].Lit; l != nil && (l.Kind == "int" || l.Kind == "bool" || l.Kind == "time") && strings.HasPrefix(l.DT, xsdNS) {
+					lits = append(lits, l)
+				}
+				if f.Vals[i].Node != nil {
+					walk(f.Vals[i].Node)
+				}
+			}
+		}
+	}
+	walk(root)
+	if len(lits) == 0 {
+		return nil
+	}
+	l := lits[g.r.Intn(len(lits))]
+	old := *l
+	l.JSON, l.Alts, l.LexAlts = g.r.Pick([]string{"twelve", "not-a-value", "2022-13-45", "1.5.2", "yes"}), nil, nil
+	doc := g.Render(root, p)
+	*l = old
+	return doc
+}
+
 func (g *DocGen) Render(root *ANode, p *Presentation) []byte {
 	o := g.renderNode(root, p)
 	var ctx any
